@@ -325,6 +325,7 @@ func C09(ctx *core.Ctx, r *core.Report) {
 	c09ChooseSiblings(ctx, r)
 	impliedCasePerNode(ctx, r)
 	memoDebug(ctx, r)
+	textCmpDebug(ctx, r)
 	r.Count("instances:no-stale-verdicts(tables of data-derived answers)", noStaleVerdicts(ctx, r, append(scopeFuncs(ctx, "node"), scopeFuncs(ctx, "nodeutil")...), "node", "nodeutil"))
 }
 
